@@ -263,7 +263,7 @@ Fixpoint shape_ok (sh : tshape) : bool :=
   | TUnitEnum r ds => nonempty ds && repr_ok r ds
   | TStrEnum names => nonempty names && forallb str_ok names
   | TEnum vs =>
-      nonempty vs
+      nonempty vs && (N.of_nat (length vs) <? 4294967296)%N
       && (fix go (vs : list (vkind * list (bytes * tshape))) : bool :=
             match vs with
             | [] => true
